@@ -33,6 +33,7 @@ func (c20) Rule() string {
 func (c20) Plan(tier string) []core.Segment {
 	return []core.Segment{
 		{Gen: "model", Profile: "fmt-canonical", Count: scale(tier, 300_000, 6_000_000), Desc: "canonical-style documents over the supported construct set (clause 2)"},
+		{Gen: "model", Profile: "fmt-canonical-deep", Count: scale(tier, 30_000, 600_000), Desc: "larger canonical-style documents (up to 160 nodes, containers nested 6 deep)", Batch: 2000},
 		{Gen: "spec", Count: gen.CorpusSize(), Exhaustive: true},
 		{Gen: "specprefix", Count: gen.PrefixCount(), Exhaustive: true},
 		{Gen: "lines", Profile: "default", Count: scale(tier, 80_000, 3_000_000)},
